@@ -232,7 +232,9 @@ fn main() {
     //               of order ≥ 3; invariance (ptcinv) on every 5th member
     let nprism = if th { 8 } else { 6 };
     let off = prng.below(48);
-    let mut pserial = 0usize;
+    // one serial per family, so that the strides sample each family evenly
+    let mut mserial = 0usize;
+    let mut sserial = 0usize;
     for n in 1..=nprism {
         let sets = if n <= 3 { labelled(2, n) } else { classes(2, n) };
         for t in &sets {
@@ -248,7 +250,7 @@ fn main() {
                     // mirror prisms
                     if o <= 2 && n <= 4 {
                         if let Some(p) = mirror_prisms(&b, a).filter(in_domain_3d) {
-                            pserial += 1;
+                            mserial += 1;
                             let stride = match (th, n, cls) {
                                 (_, 1..=2, _) => 1,
                                 (true, 3, _) => 1,
@@ -260,10 +262,10 @@ fn main() {
                                 (false, _, "sph") => 8,
                                 (false, _, _) => 64,
                             };
-                            if (pserial + off) % stride == 0 {
+                            if (mserial + off) % stride == 0 {
                                 let extra = format!("prism mirror {} base={} aut={} order={}", cls, n, ai, o);
                                 ptc(&mut ctx, if cls == "euc" { "ptc_corpus" } else { "ptc" }, &p, &extra);
-                                if (pserial + off) % (5 * stride) == 0 {
+                                if (mserial + off) % (5 * stride) == 0 {
                                     let vs = variants(&p, &mut prng, 1);
                                     ptcinv(&mut ctx, &vs, &extra);
                                 }
@@ -284,17 +286,17 @@ fn main() {
                     };
                     if want {
                         if let Some(p) = stacked_prisms(&b, a).filter(in_domain_3d) {
-                            pserial += 1;
+                            sserial += 1;
                             let stride = match (th, n, cls) {
                                 (true, 4, "hyp") => 24,
                                 (true, 3, "hyp") => 2,
                                 (false, 3, "hyp") => 32,
                                 _ => 1,
                             };
-                            if (pserial + off) % stride == 0 {
+                            if (sserial + off) % stride == 0 {
                                 let extra = format!("prism stack {} base={} aut={} order={}", cls, n, ai, o);
                                 ptc(&mut ctx, if cls == "euc" { "ptc_corpus" } else { "ptc" }, &p, &extra);
-                                if (pserial + off) % (5 * stride) == 0 {
+                                if (sserial + off) % (5 * stride) == 0 {
                                     let vs = variants(&p, &mut prng, 1);
                                     ptcinv(&mut ctx, &vs, &extra);
                                 }
